@@ -3,8 +3,8 @@
 From ZV.Common Require Import Base Run.
 From Coq Require Import Sorting.Sorted Sorting.Permutation.
 From ZV.C11 Require Import Model ProofsSpec ProofsScatter ProofsLsd ProofsMerge ProofsSet ProofsInsertion ProofsExtSort ProofsExamples.
-From ZV.C11 Require Import ModelMsd ModelAdv ModelPar ModelSkip ModelMultipass ModelFunnel ModelKv ModelCases.
-From ZV.C11 Require Import ProofsMsd ProofsMsdDepth ProofsScatterK ProofsAdv ProofsPar ProofsSkip ProofsSetVar ProofsMultipass ProofsKv ProofsExamplesX.
+From ZV.C11 Require Import ModelMsd ModelAdv ModelPar ModelSkip ModelMultipass ModelFunnel ModelKv ModelCoAware ModelCases.
+From ZV.C11 Require Import ProofsMsd ProofsMsdDepth ProofsScatterK ProofsAdv ProofsPar ProofsSkip ProofsSetVar ProofsMultipass ProofsKv ProofsCoAware ProofsExamplesX.
 Open Scope N_scope.
 
 (* the checker used for the S-only cells decides exactly "sorted permutation of the input" *)
@@ -480,3 +480,29 @@ Proof. exact sort_bytes_unfixed_eq. Qed.
 Check sort_bytes_fix_keeps_result :
   forall data, Forall str_ok data -> sort_bytes_unfixed data = sort_bytes data.
 Print Assumptions sort_bytes_fix_keeps_result.
+
+(* cache_aware_quicksort (Lomuto partition around the last element) *)
+Theorem quicksort_sorts :
+  forall l, Sorted N.le (quicksort l) /\ Permutation l (quicksort l).
+Proof. exact quicksort_sorts. Qed.
+Check quicksort_sorts :
+  forall l, Sorted N.le (quicksort l) /\ Permutation l (quicksort l).
+Print Assumptions quicksort_sorts.
+
+(* cache_aware_mergesort *)
+Theorem mergesort_sorts :
+  forall l, Sorted N.le (mergesort l) /\ Permutation l (mergesort l).
+Proof. exact mergesort_sorts. Qed.
+Check mergesort_sorts :
+  forall l, Sorted N.le (mergesort l) /\ Permutation l (mergesort l).
+Print Assumptions mergesort_sorts.
+
+(* CacheObliviousSort::sort: whichever strategy the cache hierarchy, the element size and the length select *)
+Theorem co_full_sort_sorts :
+  forall st esz l1 l2 l3 line l,
+    Sorted N.le (co_full_sort st esz l1 l2 l3 line l) /\ Permutation l (co_full_sort st esz l1 l2 l3 line l).
+Proof. exact co_full_sort_sorts_proof. Qed.
+Check co_full_sort_sorts :
+  forall st esz l1 l2 l3 line l,
+    Sorted N.le (co_full_sort st esz l1 l2 l3 line l) /\ Permutation l (co_full_sort st esz l1 l2 l3 line l).
+Print Assumptions co_full_sort_sorts.
